@@ -2,6 +2,7 @@
 from __future__ import annotations
 
 import collections
+import re
 import subprocess
 from pathlib import Path
 
@@ -247,7 +248,25 @@ def search(ctx):
     }
 
 
+def _cut_case_signature(cmd: str) -> bool:
+    """F03d's call site: a '$(' / '<(' / '>(' whose paren-counted end (what _find_cmdsub_end computes)
+    falls inside a case statement: the cut text opens `case … in` and has no `esac`."""
+    from dippy.core.analyzer import _find_cmdsub_end
+
+    for m in re.finditer(r"\$\(|[<>]\(", cmd):
+        j, _rel = _find_cmdsub_end(cmd, m.end())
+        if j < 0:
+            continue
+        cut = cmd[m.end() : j - 1]
+        if re.search(r"(^|[\s;(&|])case\s.*\sin\s", cut, re.S) and not re.search(r"\besac\b", cut):
+            return True
+    return False
+
+
 def matches_finding(entry, v) -> bool:
+    if entry.get("id") == "F03d":
+        cmd = (v.get("input") or {}).get("command", "")
+        return v.get("oracle") == "max-of-parts" and _cut_case_signature(cmd)
     return False
 
 
@@ -261,6 +280,13 @@ def finding_still_fails(ctx, entry) -> bool:
         d = analyze(w["command"], parse_config(w.get("config", "")), Path(w.get("cwd", "/tmp/probe")))
         ok_bash = subprocess.run(["bash", "-n", "-c", w["command"]], capture_output=True).returncode == 0
         return ok_bash and d.action != w["required"]
+    if entry.get("id") == "F03d":
+        from dippy.core.analyzer import analyze
+        from dippy.core.config import parse_config
+
+        d = analyze(w["command"], parse_config(w.get("config", "")), Path(w.get("cwd", "/tmp/probe")))
+        ok_bash = subprocess.run(["bash", "-n", "-c", w["command"]], capture_output=True).returncode == 0
+        return ok_bash and _cut_case_signature(w["command"]) and d.action != w["required"]
     return False
 
 
